@@ -17,7 +17,7 @@ def one(cand):
         res = {}
         for pr in PROPS:
             try:
-                q = subprocess.run(f"./check {pr} --no-write", shell=True, cwd="/verif", env=dict(os.environ, SPV_REPO=scr),
+                q = subprocess.run(f"./check {pr} --no-write", shell=True, cwd=os.environ.get("SPV_CHECK_ROOT", "/verif"), env=dict(os.environ, SPV_REPO=scr),
                                    capture_output=True, text=True, timeout=900)
                 rc, out = q.returncode, q.stdout
             except subprocess.TimeoutExpired:
